@@ -14,7 +14,7 @@ CONFIGS = {
     "persist": {"args": ["--release", "--features", "persist"], "bin": "release/svh"},
 }
 
-SETUP_CONFIGS = ["native", "sched", "persist", "miri"]
+SETUP_CONFIGS = ["native", "sched", "persist", "asan", "miri"]
 
 ASSUME_SINGLE = [
     "programs are interpreter-shaped (generic tracked fns interpreting generated program data); other user-code shapes are not covered",
